@@ -56,7 +56,8 @@ def _arg_to_json_like(arg, _depth=0):
             key += "." + arg.MULTI_TYPE.name.lower()
         return {key: arg.to_part_specs()}
     elif isinstance(arg, dict):
-        path_like = [isinstance(k, str) and k.startswith("path") for k in arg]
+        # (`from_spec` reads specification keys in any letter case)
+        path_like = [isinstance(k, str) and k.lower().startswith("path") for k in arg]
         # items / values are only inspected by `from_spec` one level down, and not at all
         # in a mapping that has an escaped key:
         recurse = _depth == 0 and not any(path_like)
